@@ -150,11 +150,9 @@ class Ctx:
         lock = open(os.path.join(VERIF, 'build', '.coq.lock'), 'w')
         fcntl.flock(lock, fcntl.LOCK_EX)
         try:
-            if not os.path.exists(os.path.join(COQ, 'Makefile')) or \
-               os.path.getmtime(os.path.join(COQ, 'Makefile')) < os.path.getmtime(os.path.join(COQ, '_CoqProject')):
-                rc, out = sh('coq_makefile -f _CoqProject -o Makefile', cwd=COQ, timeout=60)
-                if rc != 0:
-                    return self.obligation('coq:makefile', False, out)
+            rc, out = sh('./mkproject.sh', cwd=COQ, timeout=120)
+            if rc != 0:
+                return self.obligation('coq:makefile', False, out)
             tg = ' '.join(targets) if targets else ''
             rc, out = sh('timeout %d make -j%d %s 2>&1 | tail -40' % (timeout, NCPU, tg), cwd=COQ, timeout=timeout + 30)
             ok = rc == 0 and 'Error' not in out
@@ -420,10 +418,16 @@ def parse_zlist(s):
 
 
 def load_findings():
-    p = os.path.join(VERIF, 'known_findings.json')
-    if not os.path.exists(p):
-        return []
-    return json.load(open(p)).get('findings', [])
+    """known findings: /verif/known_findings.json plus /verif/findings/<id>.json (committed; read-only)"""
+    out = []
+    paths = [os.path.join(VERIF, 'known_findings.json')]
+    fd = os.path.join(VERIF, 'findings')
+    if os.path.isdir(fd):
+        paths += [os.path.join(fd, f) for f in sorted(os.listdir(fd)) if f.endswith('.json')]
+    for p in paths:
+        if os.path.exists(p):
+            out += json.load(open(p)).get('findings', [])
+    return out
 
 
 def finding_matches(f, rec):
